@@ -6,7 +6,7 @@ FILES = {
  'src/sparse_vector.rs': 'C02 C15 C10', 'src/raw_vector.rs': 'C05 C12', 'src/int_vector.rs': 'C05 C12', 'src/serialize.rs': 'C06 C14 C13',
  'src/bits.rs': 'C17', 'src/wavelet_matrix/wm_core.rs': 'C04', 'src/wavelet_matrix.rs': 'C04', 'src/ops.rs': 'C04 C10', 'src/rl_vector.rs': 'C03',
 }
-random.seed(7)
+random.seed(int(sys.argv[2]) if len(sys.argv) > 2 else 7)
 cands = []
 for f, props in FILES.items():
     s = open('/repo/' + f).read()
